@@ -227,6 +227,18 @@ class Exec:
                     self.assign(t, v, g)
                 return
             raise PyUnsupported("tuple unpacking of symbolic value")
+        if isinstance(target, ast.Subscript):
+            obj = self.ev(target.value, g)
+            key = self.ev(target.slice, g)
+            if isinstance(obj, SDict):
+                for c, u in alts_of(key):
+                    if u not in obj.present:
+                        raise PyUnsupported("dictionary key outside the universe")
+                    gc = AND(g, c)
+                    obj.vals[u] = merge(gc, val, obj.vals.get(u, UNDEF))
+                    obj.present[u] = OR(obj.present[u], gc)
+                return
+            raise PyUnsupported("subscript assignment on " + type(obj).__name__)
         raise PyUnsupported("assignment target " + type(target).__name__)
 
     def stmt(self, s, g):
@@ -524,6 +536,12 @@ class Exec:
             return ("attr", base, e.attr)
         if isinstance(e, ast.Call):
             return self.call_expr(e, g)
+        if isinstance(e, ast.Dict) and not e.keys:
+            # {}: an empty dictionary over the universe of keys
+            uni = self.builtins.get("__universe__")
+            if uni is None:
+                raise PyUnsupported("{} without a universe")
+            return SDict(list(uni), {u: FALSE for u in uni}, {u: UNDEF for u in uni})
         raise PyUnsupported("expression " + type(e).__name__)
 
     def call_expr(self, e, g):
